@@ -114,6 +114,14 @@ Additions for retrospective.py / data.py (reveal_plates, mask_screen, unmask_scr
                       in cfg["vars"] at T is `match x with Some v => let x := v in A | None => B end`: inside A, x has type T.
                       Variables both branches leave bound must end them at the same type (refused otherwise), which is their
                       type afterwards - so an Optional argument that every path replaces by a value is a T after the `if`.
+Additions for nextflow/scripts/batchie.py (the orchestration script):
+  cfg["monad"]        first use (Orchestrate.sres): errors that carry data - the directory a RuntimeError names, the actions done
+                      before another exception; raise templates (cfg["raises"]) build the error value from the variables in scope
+  cfg["tail_dup"]     True: an `if` one of whose branches MAY continue / return / break without always doing so (an early
+                      `return` nested under a second test) is translated by making the statements that follow the `if` the
+                      tail of both branches - `if c: A else: B; rest` is `if c then [A; rest] else [B; rest]`, which is what Python
+                      executes on either path (a jump inside A or B ends that path as usual).  A variable only one branch assigns
+                      is bound only in that branch's copy of the tail.  Without the key such an `if` is refused as before.
 """
 import ast
 
@@ -869,6 +877,11 @@ class Tr:
                 # the rest of the block runs only after the branch that does not jump
                 tb = self.block(st.body + ([] if bj else rest), env, k, ind + "  ")
                 te = self.block(st.orelse + ([] if oj else rest), env, k, ind + "  ")
+                return self.bind_hoist(hoist, "%sif %s then\n%s%selse\n%s" % (ind, c, tb, ind, te), ind)
+            if self.has_jump(st.body + st.orelse, (ast.Continue, ast.Return, ast.Break)) and self.cfg.get("tail_dup"):
+                # cfg["tail_dup"]: the statements after the `if` are the tail of BOTH branches (what Python executes on either path)
+                tb = self.block(st.body + rest, env, k, ind + "  ")
+                te = self.block(st.orelse + rest, env, k, ind + "  ")
                 return self.bind_hoist(hoist, "%sif %s then\n%s%selse\n%s" % (ind, c, tb, ind, te), ind)
             if self.has_jump(st.body + st.orelse, (ast.Continue, ast.Return, ast.Break)):
                 raise Unsupported("an if with a branch that may, but need not, continue/return/break: " + ast.unparse(st.test))
